@@ -41,6 +41,8 @@ def resolve_modifies(ctx, contract, values):
   """(oid, field) pairs the contract allows the function to change."""
   allowed = set()
   for path in contract.modifies:
+    if path == '@lheap':
+      continue
     parts = path.split('.')
     root = values.get(parts[0])
     if root is None:
